@@ -83,7 +83,7 @@ fn write_replay(dir: &str, prop: &str, u: &Universe, nkeys: u16, big: bool, root
         "mode": vr.mode,
         "fault_props": fault_props,
         "prefix": root.prefix.iter().map(op_to_json).collect::<Vec<_>>(),
-        "universe": {"nkeys": nkeys, "big_limits": big},
+        "universe": {"nkeys": nkeys, "big_limits": big, "rich": u.vary_key_heap},
         "config": config_to_json(&root.cfg),
         "history": vr.hist.iter().map(op_to_json).collect::<Vec<_>>(),
         "op": vr.op.as_ref().map(op_to_json),
@@ -179,7 +179,14 @@ pub fn cmd_explore(opt: &HashMap<String, String>) -> i32 {
     let replay_dir = opt.get("replay-dir").cloned().unwrap_or_else(|| "/verif/replays".into());
     let big = thorough;
 
-    let u = Universe::new(nkeys, big);
+    let fault_only = prop_s == "C16" || prop_s == "C17";
+    let rich = !(fault_only && !thorough);
+    let u = Universe::with_richness(nkeys, big, rich);
+    let (hashers, caps) = if fault_only && !thorough && !opt.contains_key("hashers") && !opt.contains_key("caps") {
+        (vec![HK::Const, HK::Spread, HK::Sip], vec![None, Some(8)])
+    } else {
+        (hashers, caps)
+    };
     static STOP_MONITOR: std::sync::atomic::AtomicBool = std::sync::atomic::AtomicBool::new(false);
     if let Some(hf) = opt.get("hang-file") {
         let hf = hf.clone();
@@ -201,8 +208,6 @@ pub fn cmd_explore(opt: &HashMap<String, String>) -> i32 {
     let exhaustive_pat_len = if thorough { 10 } else { 8 };
     let trap = want(19);
     let state_opts = StateOpts { exhaustive_pat_len, owning, clone, clone_product, trap };
-    let fault_only = prop_s == "C16" || prop_s == "C17";
-
     let mut phases: Vec<Phase> = vec![];
     let mut novel: Vec<(usize, Vec<Op>, Vec<u8>)> = vec![];
     let roots = closure_roots(&hashers, &caps, u.limits[u.limits.len() - 2]);
@@ -351,6 +356,40 @@ pub fn cmd_explore(opt: &HashMap<String, String>) -> i32 {
             let result = ex.run(&eo);
             phases.push(Phase { name: format!("seed {}", sd.root.label), result, roots: vec![sd.root.clone()], alpha_len, nkeys, fault_props: 0 });
         }
+    }
+
+    // C06 / C12 / C17: the same life-cycle sweep with only the key or only the value having drop glue
+    if (want(6) || want(12) || want(17)) && !opt.contains_key("no-typevar") && !verdict_reached(&phases) {
+        let depth = if thorough { 4 } else { 3 };
+        let r = crate::typevar::explore(depth, sel);
+        let mut stats = Stats::default();
+        stats.transitions = r.lives;
+        stats.executions = r.lives;
+        *stats.rule_evals.entry("C06.type-variant").or_insert(0) += r.lives;
+        let cfg = Config { hk: HK::Const, cap: None, limit: usize::MAX };
+        let root = Root { cfg, prefix: vec![], label: "LruCache<tracked K, u64> and LruCache<u32, tracked V>".into() };
+        let violations = r
+            .violations
+            .into_iter()
+            .map(|x| VRec { props: x.props, rule: x.rule, detail: x.detail, root: 0, hist: vec![], op: None, mode: "typevar" })
+            .collect();
+        let result = ExploreResult {
+            states: r.states,
+            transitions: r.lives,
+            depth_completed: depth,
+            fixpoint: true,
+            cap_hit: None,
+            stats,
+            violations,
+            machinery: None,
+            samples: vec![],
+            level_sizes: vec![],
+            wall_s: 0.0,
+            novel: vec![],
+            fault_states: 0,
+            known: Default::default(),
+        };
+        phases.push(Phase { name: format!("type variants: all op sequences <= {depth} x terminal actions x patterns, key-only / value-only drop glue"), result, roots: vec![root], alpha_len: 13, nkeys, fault_props: 0 });
     }
 
     // C13: parametric families (the quantifier is over a number)
@@ -624,7 +663,8 @@ pub fn cmd_replay(opt: &HashMap<String, String>) -> i32 {
     let sel = parse_prop(&prop).map(p).unwrap_or(ALL_PROPS);
     let nkeys = j["universe"]["nkeys"].as_u64().unwrap_or(3) as u16;
     let big = j["universe"]["big_limits"].as_bool().unwrap_or(false);
-    let u = Universe::new(nkeys, big);
+    let rich = j["universe"]["rich"].as_bool().unwrap_or(true);
+    let u = Universe::with_richness(nkeys, big, rich);
     let Some(cfg) = config_from_json(&j["config"]) else {
         eprintln!("bad config");
         return 2;
@@ -640,6 +680,12 @@ pub fn cmd_replay(opt: &HashMap<String, String>) -> i32 {
         println!("  {l}");
     }
     match (mode.as_str(), op) {
+        ("typevar", _) => {
+            let r = crate::typevar::explore(3, sel);
+            for x in r.violations {
+                viols.push((x.rule.to_string(), x.detail));
+            }
+        }
         ("family", _) => {
             for f in [crate::cap13::with_capacity_family(96), crate::cap13::churn_family(40)] {
                 for (rule, detail) in f.viol {
